@@ -59,26 +59,22 @@ static zidx_t							\
 find_before_##N(						\
 	const X v[], size_t nv, X key, zidx_t i, zidx_t min, zidx_t max) \
 {								\
-/* Given key K find the index of the transition before */	\
-	do {							\
-		X lo, up;					\
-								\
-		lo = v[i];					\
-		up = v[i + 1];					\
-								\
-		if (key > lo && key <= up) {			\
-			/* found him */				\
-			break;					\
-		} else if (key > up) {				\
-			min = i + 1;				\
-			i = (i + max) / 2;			\
-		} else if (key <= lo) {				\
-			max = i - 1;				\
-			i = (i + min) / 2;			\
-		}						\
-	} while (max > min && i < nv);				\
-	return i;						\
-}								\
+/* Given key K find the index of the last transition strictly before K,	\
+ * the result is known to lie in [MIN, MAX] throughout,			\
+ * the initial guess I is superfluous and only kept for the signature */	\
+	(void)nv;							\
+	while (min < max) {						\
+		i = (min + max + 1U) / 2U;				\
+									\
+		if (v[i] < key) {					\
+			/* found a candidate, go for later ones */	\
+			min = i;					\
+		} else {						\
+			max = i - 1U;					\
+		}							\
+	}								\
+	return min;							\
+}									\
 static const int UNUSED(defined_find_before_##name##_p)
 
 DEF_FIND_BEFORE(ui32, uint32_t);
